@@ -1344,6 +1344,20 @@ class Interp:
             self._comp(node.generators, 0, frame, frame.locals, lambda fr: out.append(self.eval(node.elt, fr)),
                        first_iter=src)
             return out
+        if len(node.generators) == 1:
+            # [f(x) for x in xs if p(x)] over a symbolic sequence: a filtered sub-sequence (as for generator
+            # expressions)
+            src = self.eval(node.generators[0].iter, frame)
+            if isinstance(src, (SOpt, SChoice)):
+                src = self.resolve(src)
+            from . import models as _models
+            if isinstance(src, (SList, _models.SIter, _models.SEnumerate)):
+                from . import seqs
+                return seqs.filter_comprehension(self, node, frame, src)
+            out = []
+            self._comp(node.generators, 0, frame, frame.locals, lambda fr: out.append(self.eval(node.elt, fr)),
+                       first_iter=src)
+            return out
         out = []
         self._comp(node.generators, 0, frame, frame.locals, lambda fr: out.append(self.eval(node.elt, fr)))
         return out
@@ -1489,7 +1503,12 @@ class Interp:
         return None
 
     def s_Return(self, node, frame):
-        v = self.eval(node.value, frame) if node.value is not None else None
+        try:
+            v = self.eval(node.value, frame) if node.value is not None else None
+        except PyRaise:
+            # `return f(...)` whose expression raises (e.g. `return self.error(...)`): the statement was reached
+            self._reached(node, frame)
+            raise
         self._reached(node, frame)
         return ('return', v)
 
